@@ -95,3 +95,4 @@ func verifAtomic(f func())      { f() }
 func verifLastRandN() int           { return 0 }
 func verifLastRand() int            { return 0 }
 func verifBoundSelectDefaults(n int) {}
+func verifBoundTryFailures(n int)     {}
